@@ -90,11 +90,10 @@ def rule_own(env, shared):
             for bi, t, c in b.calls():
                 if b.blocks[bi]["cleanup"] or not c.key.endswith("Vec::from_raw_parts"):
                     continue
-                ctx = env.ctx(b, F.impl_self_adt(b), w)
-                p0 = ev.operand(ctx, t["args"][0])
-                role, a2 = R.classify(p0)
-                if role != "store":
+                if F.impl_self_adt(b) != adt:
                     continue
+                # (every Vec assembled from raw parts inside a consuming implementor is a view over storage it does not
+                #  own exclusively: over the shared storage itself or over a bitwise copy of it)
                 k = "OWN.b|%s|%s|alias-owner" % (nm, env.fname(b))
                 dl = t["dest"]["l"]
                 al = _alias_locals(b, dl)
@@ -198,6 +197,48 @@ def rule_own(env, shared):
                               "the remainder split of %s %s" % (nm, "modifies its split index" if arith2 else
                                                                 "is reachable from shared (&self) callers or ignores its index"),
                               True))
+        # ---- (e) a non-destructive remainder split (raw reads) leaves the storage intact: a by-value caller must mark
+        #          the iterator exhausted afterwards, or its implicit Drop splits the same remainder off again
+        if dfn and dfn in F.bodies:
+            rsb2 = None
+            for bi, t, c in F.bodies[dfn].calls():
+                d = F.resolve_callee(c, adt, None)
+                if d and F.impl_self_adt(F.bodies[d]) == adt and len(t["args"]) >= 2:
+                    rsb2 = F.bodies[d]
+            if rsb2 is not None:
+                nondestructive = any(bb is rsb2 or (bb.is_closure and bb.root == rsb2.def_) or
+                                     (bb.is_closure and F.bodies.get(bb.parent) is rsb2) for (bb, e2) in reads)
+                for (cb, cbb) in all_callers(env, rsb2.def_):
+                    if cb.def_ == dfn or receiver_kind(cb, F) != "value":
+                        continue
+                    k = "OWN.e|%s|%s|exhausted-after-split" % (nm, env.fname(cb))
+                    if not nondestructive:
+                        out.append(Ob("OWN.e", k, "ok", cb.file_line(cb.term(cbb)["loc"]),
+                                      "the remainder split shrinks the stored collection itself (std split_off): a second split "
+                                      "by Drop finds nothing"))
+                        continue
+                    cctx = env.ctx(cb, adt, w)
+                    Lc = m.canon(r["len_term"])
+                    Lv = rewrite(Lc, lambda x: ("param", 1) if x == ("deref", ("param", 1)) else None)
+                    store_blocks = set()
+                    for e in env.flat_events(cb, adt, w):
+                        if e.kind == "atomic" and e.info["op"] == "store" and R.classify(e.info["place"]) == ("pos", adt):
+                            v = m.canon(unref(e.args[1]))
+                            if CProver([], ev, cctx).le(Lc, v) or CProver([], ev, cctx).le(Lv, v):
+                                store_blocks.add(e.info["top_bb"])
+                        if e.kind == "call" and e.callee.key == "std::mem::forget":
+                            store_blocks.add(e.info["top_bb"])
+                    tgt = cb.term(cbb).get("target")
+                    bypass = tgt is None or (tgt not in store_blocks and cb.paths_avoiding(tgt, set(cb.exits()), store_blocks)) \
+                        or (tgt not in store_blocks and tgt in cb.exits())
+                    if bypass:
+                        out.append(Ob("OWN.e", k, "viol", cb.file_line(cb.term(cbb)["loc"]),
+                                      "%s moves the remainder out with a split that leaves the storage intact, and can return "
+                                      "without marking the iterator exhausted: the implicit Drop of the consumed iterator splits "
+                                      "the same elements off again and drops what the caller now owns" % env.fname(cb)))
+                    else:
+                        out.append(Ob("OWN.e", k, "ok", cb.file_line(cb.term(cbb)["loc"]),
+                                      "after the split the counter is set to LEN on every path: Drop has nothing left", True))
         # ---- (d) conservation: no blind store to POS from shared paths; early_exit drops exactly [reserved, LEN)
         eb = R.method_body(R.T_ATOMIC, "early_exit", adt)
         k = "OWN.d|%s|early_exit" % nm
@@ -258,6 +299,135 @@ def rule_own(env, shared):
                     else:
                         out.append(Ob("OWN.d", k, "viol", e.loc(),
                                       "%s stores to the position counter of a consuming iterator from a shared path" % env.fname(b)))
+    return out
+
+
+def rule_view(env, shared):
+    """OWN.view: an owning view {ptr, len} over reserved elements yields each element once and drops the rest:
+    next reads *ptr only under len != 0 and then advances ptr by one and decrements len; len()/size_hint report len;
+    Drop drops exactly [ptr, ptr+len); nothing else writes the fields; a view returned by a helper of a consuming
+    implementor is handed on, never dropped in place."""
+    out = []
+    R, F, ev = env.R, env.F, env.ev
+    views = env.view_adts()
+    if not views:
+        return out
+    for vadt, vf in views.items():
+        nm = vadt.split("::")[-1]
+        P, L = vf["ptr"], vf["len"]
+
+        def isf(t, idx):
+            t = unref(t)
+            return t[0] == "field" and t[2] == idx and len(t) > 4 and t[4] == vadt
+        nb = F.method_impl("std::iter::Iterator", "next", vadt)
+        nb = F.bodies.get(nb) if nb else None
+        k = "OWN.view|%s|next" % nm
+        if nb is None:
+            out.append(Ob("OWN.view", k, "viol", "-", "Iterator::next of the view %s not found" % nm))
+        else:
+            ctx = env.ctx(nb, vadt, None)
+            reads = [(bi, t) for bi, t, c in nb.calls() if c.key in ("std::ptr::mut_ptr::read", "std::ptr::const_ptr::read",
+                                                                     "std::ptr::read") and not nb.blocks[bi]["cleanup"]]
+            good = len(reads) == 1
+            why = "" if good else "%d raw reads" % len(reads)
+            if good:
+                bi, t = reads[0]
+                src = ev.operand(ctx, t["args"][0])
+                if not isf(src, P):
+                    good, why = False, "reads %s, not the view's pointer" % fmt(src)[:60]
+                fs = block_facts(ev, ctx, bi)
+                if not any(f[0] == "ne" and len(f) == 3 and isf(f[1], L) and f[2] == ("int", 0) for f in fs):
+                    good, why = False, "the read is not guarded by len != 0"
+                # writers after the read
+                wp = wl = None
+                for bj, blk in enumerate(nb.blocks):
+                    if blk["cleanup"]:
+                        continue
+                    for s2 in blk["stmts"]:
+                        if s2["k"] == "assign" and s2["place"]["p"] and s2["place"]["p"][-1]["k"] == "field" \
+                                and s2["place"]["p"][-1].get("adt") == vadt:
+                            fi = s2["place"]["p"][-1]["i"]
+                            v = unref(ev.rvalue(ctx, s2["rv"]))
+                            if fi == P:
+                                okp = v[0] == "call" and v[1] == "ptr_add" and isf(v[2][0], P) and unref(v[2][1]) == ("int", 1)
+                                wp = (bj, okp)
+                            elif fi == L:
+                                okl = v[0] == "bin" and v[1] == "Sub" and isf(v[2], L) and unref(v[3]) == ("int", 1)
+                                wl = (bj, okl)
+                if good and not (wp and wp[1] and wl and wl[1]):
+                    good, why = False, "after the read the view is not advanced by exactly one element (ptr+1, len-1)"
+                if good:
+                    # both updates on every path from the read to the return
+                    for (wb, _) in (wp, wl):
+                        if wb != bi and nb.paths_avoiding(bi, set(nb.exits()), {wb}):
+                            good, why = False, "an update of the view can be skipped after the read"
+            out.append(Ob("OWN.view", k, "ok" if good else "viol", nb.file_line(),
+                          "reads *ptr under len != 0, then ptr += 1 and len -= 1 on every path" if good else
+                          "next of the owning view %s is not a single guarded read followed by one step: %s — an element is "
+                          "yielded twice, skipped, or read past the reserved interval" % (nm, why), True))
+        # len / size_hint
+        for (tr, mn) in (("std::iter::ExactSizeIterator", "len"), ("std::iter::Iterator", "size_hint")):
+            d = F.method_impl(tr, mn, vadt)
+            if not d or d not in F.bodies:
+                continue
+            b = F.bodies[d]
+            t = unref(ev.local(env.ctx(b, vadt, None), 0))
+            k = "OWN.view|%s|%s" % (nm, mn)
+            if mn == "len":
+                okk = isf(t, L)
+            else:
+                okk = t[0] == "agg" and t[1] == "tuple" and len(t[2]) == 2 and isf(t[2][0], L) and \
+                    unref(t[2][1])[0] == "agg" and unref(t[2][1])[1].endswith("Option::Some") and isf(unref(t[2][1])[2][0], L)
+            out.append(Ob("OWN.view", k, "ok" if okk else "viol", b.file_line(),
+                          "%s reports the number of elements still owned" % mn if okk else
+                          "%s of the view %s does not report its remaining length: %s" % (mn, nm, fmt(t)[:80]), True))
+        # Drop
+        a = F.adts[vadt]
+        db = F.bodies.get(a.get("drop_fn"))
+        k = "OWN.view|%s|drop" % nm
+        good = False
+        if db is not None:
+            ctx = env.ctx(db, vadt, None)
+            for bi, t, c in db.calls():
+                if c.key == "std::ptr::drop_in_place":
+                    sl = unref(ev.operand(ctx, t["args"][0]))
+                    if sl[0] == "call" and sl[1] == "slice_from_raw_parts" and isf(sl[2][0], P) and isf(sl[2][1], L):
+                        good = True
+        out.append(Ob("OWN.view", k, "ok" if good else "viol", db.file_line() if db else "-",
+                      "Drop drops exactly the elements not yet yielded: [ptr, ptr+len)" if good else
+                      "Drop of the view %s does not drop exactly [ptr, ptr+len): unconsumed elements of a chunk leak or are "
+                      "dropped twice" % nm, True))
+        # other writers
+        k = "OWN.view|%s|writers" % nm
+        bad = None
+        for b in F.non_test_bodies():
+            if nb is not None and b.def_ == nb.def_:
+                continue
+            for bj, blk in enumerate(b.blocks):
+                for s2 in blk["stmts"]:
+                    if s2["k"] == "assign" and s2["place"]["p"] and s2["place"]["p"][-1]["k"] == "field" \
+                            and s2["place"]["p"][-1].get("adt") == vadt:
+                        bad = b.file_line(s2["loc"])
+        out.append(Ob("OWN.view", k, "viol" if bad else "ok", bad or "-",
+                      "the fields of the view %s are written outside next" % nm if bad else "only next advances the view"))
+        # views are handed on, not dropped, by the helpers of consuming implementors
+        for adt, r in _consuming(env):
+            for b in F.non_test_bodies():
+                if F.impl_self_adt(b) not in (adt, r.get("puller")):
+                    continue
+                for li, l in enumerate(b.locals):
+                    if (l["ty"].get("adt") or "") != vadt and not (l["ty"]["s"].startswith(vadt + "<")):
+                        continue
+                    if li == 0:
+                        continue
+                    al = _alias_locals(b, li)
+                    for bj, blk in enumerate(b.blocks):
+                        tt = blk["term"]
+                        if not blk["cleanup"] and tt["k"] == "drop" and not tt["place"]["p"] and tt["place"]["l"] in al:
+                            out.append(Ob("OWN.view", "OWN.view|%s|%s|dropped-in-place" % (nm, env.fname(b)), "viol",
+                                          b.file_line(tt["loc"]),
+                                          "%s drops a view over reserved elements instead of handing it to the caller: the "
+                                          "reserved elements are dropped without being delivered" % env.fname(b)))
     return out
 
 
@@ -373,4 +543,222 @@ def rule_leak(env, shared):
                 out.append(Ob("LEAK.prim", k, "viol", b.file_line(t["loc"]),
                               "%s calls the leak primitive %s outside the justified places (constructors, remainder split): "
                               "whatever it is applied to is never released" % (env.fname(b), c.key)))
+    return out
+
+
+# ---------------------------------------------------------------------------------------------------
+def rule_pre(env, shared):
+    """PRE: every call of an `unsafe` function defined outside the crate is an obligation with a per-callee rule (a callee
+    without a rule fails closed); debug_assert! conditions of helpers are entailed at every call site."""
+    out = []
+    R, F, ev = env.R, env.F, env.ev
+    m = _m1(env)
+    n = 0
+    # contexts in which helpers are reached: pull units + standalone bodies
+    sites = {}
+    for u in m.units:
+        for e in u.events:
+            if e.kind == "call" and e.callee.unsafe and not e.callee.local:
+                sites.setdefault((e.body.def_, e.bb), []).append((e, u))
+    covered = set()
+    for u in m.units:
+        for e in u.events:
+            covered.add(e.body.def_)
+    for b in F.non_test_bodies():
+        if b.def_ in covered:
+            continue  # judged in the context of the pull units that inline it
+        sa = F.impl_self_adt(b)
+        w = None
+        for ww in env.worlds():
+            if ww["iter"] == sa or ww["puller"] == sa:
+                w = ww
+        for e in env.flat_events(b, sa, w):
+            if e.kind == "call" and e.callee.unsafe and not e.callee.local:
+                if e.body.def_ in covered and e.body is not b and not any(cb.def_ not in covered for (cb, _, _) in e.info["chain"]):
+                    continue
+                sites.setdefault((e.body.def_, e.bb), []).append((e, None))
+    rank = {"ok": 0, "undecided": 1, "viol": 2}
+    res = {}
+
+    def put(o):
+        p = res.get(o.key)
+        if p is None or rank[o.status] > rank[p.status]:
+            res[o.key] = o
+
+    for (bdef, bb), lst in sorted(sites.items()):
+        body = F.bodies[bdef]
+        ck = lst[0][0].callee.key
+        short = "::".join(ck.split("::")[-2:])
+        fn = env.fname(body)
+        standalone_only = all(u is None and not e.info["chain"] for (e, u) in lst)
+        if F.impl_self_adt(body) in env.view_adts():
+            key = "PRE|%s|%s|view-internal" % (fn, short)
+            put(Ob("PRE", key, "ok", lst[0][0].loc(),
+                   "raw access to the view's own elements: justified by the view discipline (rule OWN.view) and the bounds of "
+                   "its construction (rule CLAMP)"))
+            continue
+        for (e, u) in lst:
+            # helpers with preconditions of their own (unsafe fn) are judged where they are inlined into a caller
+            root = F.bodies.get(body.root, body) if body.is_closure else body
+            is_unsafe_helper = (root.info or {}).get("unsafe", False)
+            if is_unsafe_helper and not e.info["chain"] and u is None and not standalone_only:
+                continue
+            a = e.args
+            p = cprover(m, env, e)
+            if ck.endswith("Vec::from_raw_parts"):
+                ln, cap = m.canon(unref(a[1])), m.canon(unref(a[2]))
+                key = "PRE|%s|%s|len<=capacity|cap=%s" % (fn, short, fmt(cap)[:30])
+                if p.le(ln, cap):
+                    put(Ob("PRE", key, "ok", e.loc(), "length <= capacity entailed", True))
+                else:
+                    put(Ob("PRE", key, "viol", e.loc(),
+                           "Vec::from_raw_parts is called with capacity %s and a length (%s) that is not known to be <= it: "
+                           "the documented precondition `length <= capacity` is violated (debug builds of std abort: unsafe "
+                           "precondition(s) violated), and the pointer was not allocated with that capacity" % (
+                               fmt(cap), fmt(ln)[:100])))
+            elif ck in ("std::ptr::mut_ptr::add", "std::ptr::const_ptr::add"):
+                role, adt = R.classify(a[0])
+                key = "PRE|%s|%s|offset<=len" % (fn, short)
+                if role != "store":
+                    put(Ob("PRE", key + "|local", "ok", e.loc(), "pointer arithmetic on a local object"))
+                    continue
+                L = storage_len(m, env, a[0])
+                off = m.canon(unref(a[1]))
+                if L is not None and p.le(off, L):
+                    put(Ob("PRE", key, "ok", e.loc(), "offset <= LEN entailed at this call path", True))
+                elif body.is_closure and off == ("param", 2) and exclusive_only(env, F.bodies.get(body.root, body)):
+                    put(Ob("PRE", key, "ok", e.loc(), "offset ranges over [split index, LEN) (rule OWN.a)", True))
+                else:
+                    put(Ob("PRE", key, "viol" if (u is not None or e.info["chain"] or not is_unsafe_helper) else "undecided",
+                           e.loc(), "cannot establish offset %s <= LEN for pointer arithmetic on the storage" % fmt(off)[:80]))
+            elif ck in ("std::ptr::const_ptr::read", "std::ptr::mut_ptr::read", "std::ptr::read"):
+                role, adt = R.classify(a[0])
+                key = "PRE|%s|%s|index<len" % (fn, short)
+                off = None
+                for x in subterms(a[0]):
+                    if x[0] == "call" and x[1] == "ptr_add":
+                        off = m.canon(unref(x[2][1]))
+                L = storage_len(m, env, a[0])
+                if off is not None and L is not None and p.lt(off, L):
+                    put(Ob("PRE", key, "ok", e.loc(), "read of an in-bounds, initialised element (index < LEN)", True))
+                elif body.is_closure and off == ("param", 2) and exclusive_only(env, F.bodies.get(body.root, body)):
+                    put(Ob("PRE", key, "ok", e.loc(), "index ranges over [split index, LEN) (rule OWN.a)", True))
+                else:
+                    put(Ob("PRE", key, "viol" if (u is not None or e.info["chain"] or not is_unsafe_helper) else "undecided",
+                           e.loc(), "cannot establish index < LEN for the raw read"))
+            elif ck in ("std::ptr::mut_ptr::write", "std::ptr::write"):
+                key = "PRE|%s|%s|dst" % (fn, short)
+                d = fmt(a[0])
+                okk = "MaybeUninit::as_mut_ptr" in d and R.classify(a[0])[0] not in ("store", "cell")
+                put(Ob("PRE", key, "ok" if okk else "viol", e.loc(),
+                       "write into a local MaybeUninit" if okk else "raw write to %s" % d[:100]))
+            elif ck == "std::mem::MaybeUninit::assume_init":
+                key = "PRE|%s|%s|initialised" % (fn, short)
+                okk = False
+                for bi2, t2, c2 in body.calls():
+                    if c2.key in ("std::ptr::mut_ptr::write", "std::ptr::write") and body.dominates(bi2, e.bb):
+                        okk = True
+                put(Ob("PRE", key, "ok" if okk else "viol", e.loc(),
+                       "assume_init is dominated by a write of the value" if okk else
+                       "assume_init without a dominating write: reads uninitialised memory"))
+            elif ck == "std::mem::ManuallyDrop::take":
+                key = "PRE|%s|%s|slot-not-reused" % (fn, short)
+                root = F.bodies.get(body.root, body) if body.is_closure else body
+                is_drop = (root.info or {}).get("name") == "drop" and "Drop" in ((root.info or {}).get("trait") or "")
+                rewrapped = False
+                for bi2, blk in enumerate(body.blocks):
+                    if blk["cleanup"]:
+                        continue
+                    for s in blk["stmts"]:
+                        if s["k"] == "assign" and s["place"]["p"] and s["place"]["p"][0]["k"] == "deref" \
+                                and "ManuallyDrop::new" in fmt(env.ev.rvalue(e.ctx, s["rv"])) and bi2 in body.reachable(e.bb):
+                            rewrapped = True
+                okk = is_drop or rewrapped
+                put(Ob("PRE", key, "ok" if okk else "viol", e.loc(),
+                       ("taken in Drop: the slot is never used again" if is_drop else
+                        "the slot is re-initialised before the function returns") if okk else
+                       "ManuallyDrop::take leaves a moved-from slot that stays reachable"))
+            elif ck == "std::ptr::drop_in_place":
+                key = "PRE|%s|%s|owned-interval" % (fn, short)
+                sl = unref(a[0])
+                okk = False
+                if sl[0] == "call" and sl[1] == "slice_from_raw_parts" and len(sl[2]) == 2:
+                    ptr, ln = unref(sl[2][0]), m.canon(unref(sl[2][1]))
+                    L = storage_len(m, env, ptr)
+                    off = None
+                    for x in subterms(ptr):
+                        if x[0] == "call" and x[1] == "ptr_add":
+                            off = m.canon(unref(x[2][1]))
+                    if off is not None and off[0] == "payload":
+                        off2 = m.canon(ev.payload(e.ctx, off[1]))
+                    else:
+                        off2 = off
+                    if L is not None and ln[0] == "bin" and ln[1] == "Sub" and ln[2] == L and off is not None \
+                            and m.canon(unref(ln[3])) in (off, off2) and (p.le(off2, L) or p.le(off, L)):
+                        okk = True
+                put(Ob("PRE", key, "ok" if okk else "viol", e.loc(),
+                       "drops [begin, LEN) with begin <= LEN (the reserved interval: rule OWN.d)" if okk else
+                       "cannot establish that drop_in_place covers an interval inside the storage owned by the caller", True))
+            elif ck == "std::vec::Vec::set_len":
+                key = "PRE|%s|%s|len<=capacity" % (fn, short)
+                v = unref(a[1])
+                okk = v == ("int", 0)
+                put(Ob("PRE", key, "ok" if okk else "viol", e.loc(),
+                       "set_len(0) needs no initialised elements" if okk else "set_len(%s) is not justified" % fmt(v)))
+            else:
+                key = "PRE|%s|%s|no-rule" % (fn, short)
+                put(Ob("PRE", key, "viol", e.loc(),
+                       "call of the unsafe function %s has no precondition rule in the checker (fail closed): add a rule after "
+                       "reading its safety contract" % ck))
+    out.extend(res.values())
+    # debug_assert! conditions
+    for b in F.non_test_bodies():
+        for bi, blk in enumerate(b.blocks):
+            t = blk["term"]
+            if t["k"] != "switch" or not (t["loc"].get("outer_macro") or "").endswith("debug_assert"):
+                continue
+            if t.get("discr_ty") != "bool":
+                continue
+            # only the outermost condition switch of the macro (cfg!(debug_assertions) constant switches are skipped)
+            if t["discr"]["k"] == "const":
+                continue
+            sctx0 = env.ctx(b, F.impl_self_adt(b), None)
+            if ev.operand(sctx0, t["discr"])[0] in ("int", "const"):
+                continue  # `if cfg!(debug_assertions)`
+            key = "PRE.dbg|%s" % env.fname(b)
+            callers = all_callers(env, b.def_)
+            if not callers:
+                out.append(Ob("PRE.dbg", key, "undecided", b.file_line(t["loc"]), "debug_assert in a function without callers"))
+                continue
+            allok = True
+            from guards import bool_facts
+            for (cb, cbb) in callers:
+                sa = F.impl_self_adt(cb)
+                w = None
+                for ww in env.worlds():
+                    if ww["iter"] == sa:
+                        w = ww
+                cctx = env.ctx(cb, sa, w)
+                nctx = ev.callee_ctx(cctx, cbb)
+                if nctx is None:
+                    allok = False
+                    continue
+                cond = ev.operand(nctx, t["discr"])
+                fs = bool_facts(cond, True)
+                facts = [tuple(m.canon(x) if isinstance(x, tuple) else x for x in f) for f in block_facts(ev, cctx, cbb)]
+                pr = CProver(facts, ev, cctx)
+                for f in fs:
+                    if f[0] == "le" and len(f) == 3:
+                        if not pr.le(m.canon(f[1]), m.canon(f[2])):
+                            allok = False
+                    elif f[0] == "lt" and len(f) == 3:
+                        if not pr.lt(m.canon(f[1]), m.canon(f[2])):
+                            allok = False
+                    else:
+                        allok = False
+            out.append(Ob("PRE.dbg", key, "ok" if allok else "viol", b.file_line(t["loc"]),
+                          "debug_assert! condition is entailed at all %d call sites (debug and release builds agree)" % len(callers)
+                          if allok else
+                          "a debug_assert! in %s is not entailed at every call site: debug builds panic where release builds "
+                          "continue" % env.fname(b), True))
     return out
